@@ -1,374 +1,518 @@
 #!/usr/bin/env python3
-"""Regenerates MANIFEST.json from the table below (kept valid against /root/.vp/MANIFEST.schema.json)."""
+"""Regenerates MANIFEST.json from the table below (kept valid against /root/.vp/MANIFEST.schema.json).
+Theorem counts are `coverage.obligations` of evidence/Cnn.json (the evidence files are the authority)."""
 import json
 import os
 import subprocess
 
 HERE = os.path.dirname(os.path.dirname(os.path.abspath(__file__)))
 
-CHECKS = {
-    "C03": dict(
-        category="proof",
-        text=("Lean 4 theorems (BlocV.Proofs.C03) prove, for ALL Int64 operands, that the model of op_add/sub/mul/neg/"
-              "div/mod/exp/pop/pus/and/ior/xor equals the mathematical specification of the manual (exact result mod 2^64, "
-              "truncating / and % with DIVIDE_BY_ZERO and defined at MIN/-1, zero-fill shifts with reversal and >=64 -> 0, exact "
-              "power by squaring, & | ^ ~ bitwise on all 64 bits; int_ops_total / integer_is_integer / evalBin_int connect them to "
-              "what evalBin executes); mixed_is_decimal (an operation with a decimal operand yields a decimal, all values); "
-              "int_of_decimal_spec: for ALL 2^64 bit patterns int(decimal) succeeds exactly when the double's exact value "
-              "(Spec/Float.lean: scaled integer / 2^1074) truncates into [-2^63, 2^63), returns that truncation, OUT_OF_RANGE "
-              "otherwise (NaN/inf never succeed); 35 theorems. The model is tied to /repo on every run by an exhaustive lattice^2 + seeded random differential "
-              "run of the rebuilt library (ASan+UBSan) against the compiled Lean model, bit-exact also for decimals and int(decimal)."),
-        design_ref="DESIGN.md §6 C03, §11, notes/NOTES-p0305.md",
-        note=("Trusted: Lean kernel (axioms propext, Classical.choice, Quot.sound only; audited per theorem each run), the "
-              "hand-written model's correspondence to the C++ is *tested* (exhaustive over the boundary lattice, sampled "
-              "elsewhere), IEEE-754 + - * / pow are the platform's (executed bit-exactly on both sides, not proved)."),
-        technique="Lean 4 proof over a hand model + differential correspondence (lattice-exhaustive)"),
-}
+TRUST = "Trusted: Lean kernel (axioms propext, Classical.choice, Quot.sound only; audited per theorem on every run)"
+
+CHECKS = {}
+
+CHECKS["C01"] = dict(
+    category="proof",
+    text=("C-level hazards (null dereference of a typed accessor, signed overflow, out-of-range double->integer cast, foreign "
+          "exception, divergence) are OUTCOMES of the Lean model, not things it cannot do. Theorems (BlocV.Proofs.C01, 12): "
+          "evalUn_no_hazard and evalBin_no_hazard — every unary and all 20 binary operators, EVERY pair of values (nulls, typed "
+          "nulls, tables, tuples, every Int64, every double), both aliasing flags, never reach a hazard (hypothesis: table values "
+          "have level >= 1, shown necessary by evalBin_hazard_witness and preserved by evalBin_ok_tabOk); pure_no_hazard lifts this "
+          "to every expression tree incl. short circuit; evalBuiltin_no_hazard: all 53 modelled built-ins for all argument lists "
+          "(the 23 text/conversion ones, and since round 2 — statement unchanged, the case table behind it grew with C10 — num isnum "
+          "bool isnull typeof sign round max min mod atan2 clamp, 15 libm maps, pi ee phi); evalBuiltin_repaired_witnesses (substr/"
+          "subraw at INT64_MIN, hex pad count, abs, pow return values since their repair); int_of_decimal_no_hazard for all 2^64 "
+          "bit patterns. Tied to /repo by running EVERY built-in (generated keyword list) x arity x operand class (boundary values "
+          "always) x operand source, every operator and member method, and generated programs mutated at every token position + "
+          "byte edits, under ASan+UBSan+float-cast-overflow through Parser::parse, the C API and the statement-at-a-time path; "
+          "round 2 added the `session` family (several texts in ONE context: rejected declarations, then calls of every declared "
+          "signature; all 3-step histories x 3 paths) and the `self` family (an argument expression that changes the receiver of "
+          "the enclosing member call, e.g. x.put(2, x.delete(0).at(0))). ~143k cases; any outcome other than value / parse error / "
+          "runtime error is reported."),
+    design_ref="DESIGN.md §6 C01, §11, §12, notes/NOTES-p0102.md, notes/NOTES-C10.md",
+    note=(TRUST + "; sanitizers as the oracle for undefined behaviour; for the built-ins and members not covered by "
+          "a no-hazard theorem the verdict comes from the exhaustive sanitizer run (testing), with every crash either a listed "
+          "known finding (construct + crash class + witness; none is open under C01 after the repair rounds — the use-after-free "
+          "reachable from plain scripts through a held element reference is recorded under C05) or a violation. Stack/heap "
+          "exhaustion is outside the property's domain (bounded nesting / sizes in the generators). The parser itself is not "
+          "modelled here (C12/C13 model it): malformed text is covered by mutation testing only."),
+    technique="Lean 4 no-hazard theorems over a hand model (all operators, 53 built-ins, expression trees) + exhaustive construct x operand-class sanitizer run + token-level text mutation + session histories")
+
+CHECKS["C02"] = dict(
+    category="proof",
+    text=("Static typing model (Model/Typing.lean: typeChecking/assertTypeUniform, the operators' type() rules, built-in signature "
+          "and result-type tables GENERATED from every builtin_*.cpp/.h on each run) and, since round 2, a source-text front end "
+          "for the model (Model/Elab.lean: parse tree -> interpreter program), the `$` / iterator constraint (Model/Safety.lean: "
+          "Symbol::check_safety, registerSymbol, the type part of storeVariable) and both compile disciplines (Model/Stepwise.lean: "
+          "runBatch, runStepwise). Theorems (BlocV.Proofs.C02, 34): bin_type_sound (15 binary operators: an .ok result has EXACTLY "
+          "the static type), bin_type_sound_static_partial (all 20, outside the decidable region binTypeGap; bin_type_gap_exact), "
+          "un_type_sound, accept_implies_no_type_error_partial (+ negations), builtin_type_sound_partial (16 built-ins); NEW: "
+          "expr_type_sound_partial (every expression over literals, variables and all operators, any nesting, every well-typed "
+          "store: the value's type is the static type outside the run-time trace of the gap; expr_type_sound_fails inside it), "
+          "safety_preserves_major(_partial), for_iterator_keeps_integer, store_preserves_major (an accepted program keeps the kind "
+          "of every `$` / protected symbol; safety_table_major_fails: a `$` table may change its element type), "
+          "stepwise_eq_batch_partial + typeOf_stable (the two compiles agree wherever symbol types are the types of the values) "
+          "with stepwise_eq_batch_fails, elab_forgets_parens, src_roundtrip_expr / _program_partial / _runs. Tie: static vs "
+          "run-time type node by node (every operator, ~45 built-ins x operand classes x typed variable | opaque result); every "
+          "generated program's SOURCE TEXT run by the model (driver src / srcstep) and the library: families fe, fe-mut, fe-tables, "
+          "fe-safety (15x15 literal classes), fe-iter, fe-forall, fe-store, fe-dead(-step), fe-hand(-step) (100 hand texts covering "
+          "every statement / expression constructor); one unit vs statement-at-a-time now predicted by the model; ~35k cases."),
+    design_ref="DESIGN.md §6 C02, §11, §12, notes/NOTES-p0102.md, notes/NOTES-C02FE.md",
+    note=(TRUST + ", extract/sigs.py. The full statement is FALSE on this tree: 20 recorded findings by operator / built-in cell "
+          "(arithmetic with an untyped null / opaque operand is typed decimal statically), C02.safety_table_major_changes, "
+          "C02.stepwise_dead_branch_typed_from_value (a dead statement with an opaque operand compiles as one unit, not statement by "
+          "statement). expr_type_sound_partial stops at operators: built-in calls beyond the 16 node theorems, members and user "
+          "calls are decided by the exhaustive static/dynamic comparison (testing). The execution half of stepwise = batch is not "
+          "proved. The front end has no symbol table / static type check of its own (texts the C++ rejects for such reasons are "
+          "counted, not compared) and answers `unsupported` for trace, put, typed declarations, matches, x@N outside error@N, some "
+          "constants (14 of the 100 hand texts, none of the generated ones); `locked` is not in Safety."),
+    technique="generated typing tables + Lean 4 type-soundness / constraint theorems over a hand model with exact gap regions + source-text front end run against the library + exhaustive static/dynamic type comparison")
+
+CHECKS["C03"] = dict(
+    category="proof",
+    text=("Lean 4 theorems (BlocV.Proofs.C03, 34) prove, for ALL Int64 operands, that the model of op_add/sub/mul/neg/"
+          "div/mod/exp/pop/pus/and/ior/xor equals the mathematical specification of the manual (exact result mod 2^64, "
+          "truncating / and % with DIVIDE_BY_ZERO and defined at MIN/-1, zero-fill shifts with reversal and >=64 -> 0, exact "
+          "power by squaring, & | ^ ~ bitwise on all 64 bits; int_ops_total / integer_is_integer / evalBin_int connect them to "
+          "what evalBin executes); mixed_is_decimal (an operation with a decimal operand yields a decimal, all values); "
+          "int_of_decimal_spec: for ALL 2^64 bit patterns int(decimal) succeeds exactly when the double's exact value "
+          "(Spec/Float.lean: scaled integer / 2^1074) truncates into [-2^63, 2^63), returns that truncation, OUT_OF_RANGE "
+          "otherwise (NaN/inf never succeed). The model is tied to /repo on every run by an exhaustive lattice^2 + seeded random differential "
+          "run of the rebuilt library (ASan+UBSan) against the compiled Lean model, bit-exact also for decimals and int(decimal); ~78k cases. "
+          "Unchanged in round 2 (a seeded NaN-passing range guard of int() was caught at first trial)."),
+    design_ref="DESIGN.md §6 C03, §11, notes/NOTES-p0305.md",
+    note=(TRUST + ", the hand-written model's correspondence to the C++ is *tested* (exhaustive over the boundary lattice, sampled "
+          "elsewhere), IEEE-754 + - * / pow are the platform's (executed bit-exactly on both sides, not proved)."),
+    technique="Lean 4 proof over a hand model + differential correspondence (lattice-exhaustive)")
 
 CHECKS["C04"] = dict(
     category="proof",
-    text=("Lean 4 theorems (BlocV.Proofs.C04): for every operand the parser admits to a logical operator (true, false, "
+    text=("Lean 4 theorems (BlocV.Proofs.C04, 14): for every operand the parser admits to a logical operator (true, false, "
           "untyped null, boolean-typed null — any minor) AND/OR/XOR/NOT equal Kleene's tables, are symmetric, and their "
           "truth value is independent of the type carried by the null; all six relational operators return null when "
           "either operand is null, for ALL values; a null or false condition takes the false branch of if / ends while at "
           "statement level (if_null_condition_takes_false_branch, while_null_condition_ends); null_literal_stable. Tied to /repo by a complete "
           "enumeration of operand class x provenance (variable, constant, constructor, function result, table element, "
-          "tuple item) x operator, each expression evaluated five times per program, with deep variable dumps."),
-    design_ref="DESIGN.md §6 C04",
-    note=("Trusted: Lean kernel; model-to-code correspondence is tested (complete over the stated finite product); the "
-          "storage-level half (constant cells are never overwritten) is C05's frame theorem, here observed through dumps."),
-    technique="Lean 4 proof (finite case split lifted to all values) + complete provenance enumeration")
+          "tuple item) x operator, each expression evaluated five times per program (twice in a loop, as an if and a while condition), "
+          "with deep variable dumps; round 2 added `flocal` (the null is an unassigned typed local of a function, the expression "
+          "evaluated 5x inside it, the function called three times: recycled call contexts) and `litnull` (the constants null, \"\", "
+          "raw(), str(), bool(), int() as receiver of every member method / argument of value-returning built-ins, the same node "
+          "evaluated three times in a loop: equal results, `null` still null). ~16k cases."),
+    design_ref="DESIGN.md §6 C04, §11, §12",
+    note=(TRUST + "; model-to-code correspondence is tested (complete over the stated finite product); the "
+          "storage-level half (constant cells are never overwritten) is C05's frame theorem, here observed through dumps; the "
+          "`litnull` family is implementation-only (equal results on re-evaluation): it raised the first alarm for the in-place "
+          "member writing through a handed-through operand (876bec0) and replays the witness of a40085e on every run."),
+    technique="Lean 4 proof over a hand model (finite case split lifted to all values) + complete provenance enumeration, repeated evaluation")
+
+CHECKS["C05"] = dict(
+    category="proof",
+    text=("Two Lean 4 storage-level models. Model/Store.lean (cells with the LVALUE flag, Pool::keep, LVAL1/LVAL2, which operand each "
+          "operator returns or overwrites, storeVariable): eval_frame, eval_refines (storage level computes exactly the value-level "
+          "result), eval_pool_discipline, eval_after / eval_twice_equal / eval_error_repeatable, assign_copies, assign_independent, "
+          "assigns_leave_others. Round 2: Model/StoreX.lean extends it to locations (root, path) into containers, at / @N returning "
+          "the element itself, in-place members put/insert/delete/concat/set@ with MemberExpression::receiver() / isStorage, "
+          "tab / tup construction (clone or move per item), assignment, user calls (arguments bound in the callee context, "
+          "saveReturned), with a write log. Theorems (BlocV.Proofs.C05, 40): evalX_frame (under the flag invariant every variable "
+          "slot / constant node NOT in the log is untouched as a whole cell, no flag changes; ALL expressions), "
+          "flagInvX_preserved (statements, callee contexts), later_ops_leave_others (after b = a, tab(n,a), tup(a,..), f(a) no later "
+          "statement sequence rooted at one is visible through the other), assign_var_copies, storage_root, "
+          "inplace_only_through_storage (an in-place member writes into a variable ONLY through a storage receiver rooted there), "
+          "const_receiver_cloned, passthrough_cloned; static footprint fpE computed from the text: evalX_logs (dynamic log ⊆ fpE), "
+          "evalX_frame_static, storage_not_cst, recv_root_in; dangling_witness (negative). Tie: node dumps (value, type, flag of "
+          "every slot) x3 evaluations; driver c05x compares outcome, values and flags per step; families inplace, element_receiver, "
+          "constant_receiver, element_read, construct, alias_sequence, dangling, arg_forms (892: member x receiver x payload form x "
+          "position form), iterator_assign_then_read, builtin_passthrough (83, implementation-only oracle: only assignment targets "
+          "and storage receivers may change); random alias programs incl. tables vs Model/Interp. ~23k cases."),
+    design_ref="DESIGN.md §6 C05, §11, §12, notes/NOTES-p0305.md, notes/NOTES-C05.md",
+    note=(TRUST + "; the per-operator placement table and the member paths are transcribed by hand and their observable "
+          "consequences tested. Refinement to the value level and re-evaluation equality are proved for operator expressions only "
+          "(for the extended language: tested by the oracle `same statement twice from an equal read-state`). Element flags are a "
+          "write-before-read cache in the C++ and are derived from the root in the model; built-ins and forall are not in the "
+          "storage model. Open finding C05.dangling_element_reference (a reference into a table held while a later operand changes "
+          "the same variable in place: use after free; `hazard oob` in the model, the check tolerates a non-manifesting run). "
+          "Objects are shared by reference as documented (C17)."),
+    technique="Lean 4 proof (frame, flag-invariant and footprint theorems over a storage-level hand model; one induction on fuel via a preservation predicate closed under bind) + dump-based differential correspondence per step")
+
+CHECKS["C06"] = dict(
+    category="proof",
+    text=("Lean 4 interpreter model (Model/Interp.lean: statements, forLoop / whileLoop / forallLoop transcribing FOR/WHILE/"
+          "FORALLStatement::doit, forall iterators as pointers into the traversed table, blocks, signals; round 2: the compile-time "
+          "lock of a traversed table — lockProgram = what Parser::parse accepts while names are locked — and chained in-place "
+          "receivers). Theorems (BlocV.Proofs.C06, 50): exec_for_visits — `for` runs its body exactly over Spec.forRange for ALL "
+          "Int64 first/limit/step and the three directions (no wrap-around at INT64_MAX/MIN), forRange_closed_form/length, "
+          "exec_for_terminates, null header => zero iterations, step < 1 => OUT_OF_RANGE; for_body_assignment (body rewrites the "
+          "control variable: next = assigned + step while inside the range in the direction, the loop ends right there otherwise, "
+          "also in the last partial-step window and at the INT64 edges); exec_forall_var_visits_locked — for every body the parser "
+          "accepts under the lock, forall visits exactly forallOrder, once each, in order (the former run-local hypothesis removed "
+          "by Lemmas/Lock.lean lock_all, a third mutual induction); locked_code_keeps_table_length; exec_let_through_iterator; "
+          "iters_balanced / exec_iters_frames (after ANY statement, block, call or expression, whatever the outcome, the stack of "
+          "running forall loops is what it was); statement_output_only_grows; forLoop_null_iterator. Tie: exhaustive for-header "
+          "lattice, forall families (sizes 0..4 and null x direction x source x read / write / break / continue / raise / return at "
+          "each index; nested), bounded-exhaustive nestings x exits, for-assign (2067: step x direction x range x assigned value x "
+          "position), lock (313 programs, perr 32 exactly when lockProgram refuses), random structured programs; printed "
+          "sequences, variables, control/exec depth and constraint flags compared. ~5.7k programs."),
+    design_ref="DESIGN.md §6 C06, §11, §12, notes/NOTES-p0608.md, notes/NOTES-INT.md",
+    note=(TRUST + "; the interpreter model evaluates over values (C05 links it to the storage discipline); correspondence tested. "
+          "`every iteration ends normally or with continue` stays a run-local hypothesis of the visiting theorems; forall over a "
+          "TEMPORARY is covered by the correspondence, its statement-level theorem is for a variable source; element receivers "
+          "(ts.at(0).concat(x)) are not in this model (C05's StoreX has them) and not generated. The one finding (a body nulling the "
+          "control variable) was repaired in round 1."),
+    technique="Lean 4 proof over an interpreter hand model (loop theorems vs Spec.forRange / forallOrder, control-stack balance and table lock by mutual inductions) + program-level differential correspondence")
+
+CHECKS["C07"] = dict(
+    category="proof",
+    text=("Lean 4 theorems (BlocV.Proofs.C07, 40) over the interpreter model: catchable set generated from RuntimeError::THROWABLES; "
+          "the FIRST matching clause of the nearest block runs from the state the error left, with the error saved as the context's "
+          "record (handler_selection, handler_sees_its_error); unmatched / uncatchable errors reach the host; "
+          "inner_unmatched_reaches_outer, inner_matching_handles, error_in_callee_reaches_callers_block; no_residue_control_stack / "
+          "no_residue_after_run, handled_flow_is_handlers_flow, continues_after_handled. Round 2 — the built-in `error` and error@1/@2/@3 "
+          "are modelled (name | keyword, message from the GENERATED format table with the what() buffer size, code): "
+          "error_of_user_raise, error_of_builtin_throwable, error_of_clear_record, eval_error_item; the record is taken on entry of a "
+          "block and restored when a clause ends (repairs 72036d1, 8256736): inner_handled_error_restores_record, "
+          "record_kept_without_clauses, inner_block_keeps_enclosing_record, ok_run_keeps_record (ANY code that ends without error "
+          "leaves the record alone), error_describes_clause_error_at_every_point (after any prefix of a clause body that ended "
+          "normally `error` still is the clause's error; Lemmas/ErrRec.lean, two mutual inductions), failed_handler_keeps_record; "
+          "output_only_grows / output_before_error_preserved (frame induction over the whole interpreter); the interactive runner "
+          "(apps/cli_parser.cpp loop, repaired by 3db7ed2): interactive_statement_outcome, interactive_runner_no_residue. Tie: "
+          "nestings x failing operation x handler sets + probe program; errrec (432: failing op x second failing op x clause names x "
+          "8 shapes, each followed by a program reading the record); interactive (622 sessions through the probe op istep: outcomes, "
+          "output, variables, control depth); source-shape tie on the cli loop. ~3.1k programs."),
+    design_ref="DESIGN.md §6 C07, §11, §12, notes/NOTES-p0608.md, notes/NOTES-INT.md",
+    note=(TRUST + "; exec level and the symbol constraint flags have no counterpart in the value-level model: their state after an "
+          "error is observed (dump after every run + probe program), not proved; the probe op istep is a hand copy of the cli loop, "
+          "tied by a source-shape check; a top-level forall / return under the interactive runner is unmodelled; C++ unwinding "
+          "assumed to run the transcribed catch blocks; exception names longer than 255 bytes not tied. The four findings recorded "
+          "by this check in round 2 (record cleared by an inner handler, stale after a failed inner clause, kept in a recycled call "
+          "context, control entry left by the interactive runner) are repaired; their theorems are now positive."),
+    technique="Lean 4 proof over an interpreter hand model (relational frame inductions) + generated-nesting, error-record and interactive-session differential correspondence")
+
+CHECKS["C08"] = dict(
+    category="proof",
+    text=("Lean 4 theorems (BlocV.Proofs.C08, 20): a call equals finishCall(caller, body run from calleeInit(f, argument values)); "
+          "call_independent_of_caller / call_determined_by_argument_values — result, output and callee run depend on the caller "
+          "only through the output stream and work budget, for the full callFunc incl. argument evaluation — and, new, "
+          "call_independent_of_history (any two call histories, failing calls included; full strength since the repair e310d98 of "
+          "the error record surviving in a recycled context: history_witness_fixed); callee_cannot_modify_caller (incl. the "
+          "caller's error record), caller_untouched; locals_start_unset; argument_bound_by_value_all (n parameters with distinct "
+          "names); overload_by_arity, overloads_coexist; failing_argument_fails_call; recursion_limit (constant generated from "
+          "functor_manager.h), recursion_limit_exact and direct_recursion_stops_at_limit (symbolic: every `function f() return "
+          "f()` fails after exactly RECURSION_LIMIT - d nested calls). Tie: the same probe call after generated call histories "
+          "(conditionally assigned / re-typed locals, recursion to the limit, mutual recursion, failing calls, overloads, "
+          "self-calling arguments); round 2: errrec-history (294: functions reading the record at entry after histories with "
+          "failing clauses, recursion, failing arguments), end-forms (a function ending in 12 ways — valueless return, falling off "
+          "the end, return inside loops / blocks / handlers, raise handled or escaping — every ordered pair probed a third time, "
+          "random histories, also through a caller), depth-history, receiver-forms (in-place members on non-storage and chained "
+          "receivers). ~1.8k programs."),
+    design_ref="DESIGN.md §6 C08, §11, §12, notes/NOTES-p0608.md, notes/NOTES-INT.md",
+    note=(TRUST + "; the model creates a fresh callee state per call, the C++ recycles contexts and resets them (b7b8574, e310d98): "
+          "their equivalence is exactly what the history families test. random()/stdin are documented global inputs and not "
+          "modelled. A program that declares one signature twice with a call in between resolves the call differently from the "
+          "model's collectFuncs (C14's World models the re-installation; the generators declare each signature once)."),
+    technique="Lean 4 proof over an interpreter hand model + call-history differential correspondence")
+
+CHECKS["C09"] = dict(
+    category="proof",
+    text=("Lean 4 value-level model of at/put/insert/delete/concat/count/set@/@N/tab/tup and of the forall parse-time lock "
+          "(Model/Members.lean, transcribed from blocc/member/*.cpp, builtin_tab/tup.cpp, expression_item.cpp, statement_forall.cpp) "
+          "proved EQUAL to the list specification (Spec/Containers.lean) for all inputs outside the recorded finding regions. "
+          "Theorems (BlocV.Proofs.C09, 80): put_refines, insert_refines, concat_refines, at_delete_count_refine (tables: every "
+          "position value x every uniform argument), ops_refine_spec (induction over EVERY operation sequence: each intermediate "
+          "receiver is uniform, keeps its header and is the receiver the Spec's list function names), seq_{put,insert,delete,concat}"
+          "_refines + raw_at_refines and str/raw/tup_ops_refine_spec (strings, bytes, tuples; sequences), set_refines + item_refines "
+          "(1-based), tab_refines, tab_level_bounded (every tab result has 1..254 dimensions: positive since repair 2c67aef), "
+          "tup_structure, tup_never_nested (4db32b5), tabFill_stream / tab_varying (element expression changing between "
+          "evaluations), handed_through_receiver_unchanged, constant_receiver_unchanged (receiver kinds of "
+          "MemberExpression::receiver(), 876bec0 / a40085e), lock_refuses_mutating, locked_body_refused, forall_table_cannot_change, "
+          "lockStmt_restores (also for assignment to the traversed table), uniform_preserved_plain, mix_null_stores_null, "
+          "table_methods_no_hazard, index contracts, forall_visits_once_in_order; negations at the witnesses of the 3 open findings. "
+          "Key lemma classify_fit: the transcribed C++ cascade IS the Spec's fit on exact types. Tie: ~37.6k cases under "
+          "ASan/UBSan against model and spec — member x receiver x argument x position lattice under static and opaque typing, "
+          "operation sequences, forall programs, lockp (1847 lock programs = members x 13 nestings x receiver root x chain, + "
+          "assignment), constructors under opaque typing with level-limit values, receiver kinds (98), random-element tab programs "
+          "(48); Spec.canon evaluated on every case."),
+    design_ref="DESIGN.md §6 C09, §11, §12, notes/NOTES-C09.md, notes/NOTES-r09.md",
+    note=(TRUST + ". The full statement is false on the tree only through C09.mix.level, C09.tuple.hashCollision, "
+          "C09.tuple.hashZero (recorded; theorems exclude exactly these regions, KF/C09.lean). The refinement theorems assume "
+          "canonical type minors (a hypothesis about the representation, checked on every executed case by the driver, not by a "
+          "theorem about a value-constructing interpreter); set/item assume fewer than 2^32-1 items; full uniformity of tab_varying's "
+          "result needs injective tuple hashes; forall at statement level is C06's. Correspondence is tested (exhaustive over the "
+          "stated lattice)."),
+    technique="Lean 4 proof over a hand model (refinement Model = Spec by case analysis of the transcribed cascade against exact types, induction over operation lists and nested forall bodies) + exhaustive small-lattice differential correspondence")
 
 CHECKS["C10"] = dict(
     category="proof",
-    text=("Lean 4 model of the string/bytes/conversion built-ins (substr family, strpos, replace, trim family, upper/lower, "
-          "tokenize, strlen, hex, hash, chr, raw, str incl. an exact %.16g, int, Base64) as total functions over byte lists "
-          "with C hazards as outcomes; 47 theorems (BlocV.Proofs.C10): b64dec_b64enc for ALL byte lists (and through evalBuiltin), "
-          "int_str_roundtrip for every Int64 incl. INT64_MIN, substr/subraw (2 and 3 arguments) = the independent Spec.Text.substr "
-          "for all strings and ALL Int64 positions/counts (substr_full; the INT64_MIN overflow was repaired), lsubstr/rsubstr,  substr_returns_sublist (whatever is returned is the typed null, the "
-          "argument, or a contiguous sublist: never data from outside), null in => typed null out, text_builtins_no_hazard (23 "
-          "built-ins x every argument list, no excluded region), hex_contract / hex_value (hex(v, n) = Spec.Text.hex for every value "
-          "and pad count), abs_contract, pow_exact / pow_eq_operator, strpos / replace / upper / lower / trim / strlen / hex / raw / hash / tokenize_join contracts, "
-          "chr / put / concat code range. Tied to /repo by exhaustive short-string x position-lattice calls "
-          "(arguments as variables and as temporaries, argument variables dumped after the call) under ASan+UBSan."),
-    design_ref="DESIGN.md §6 C10, §11, notes/NOTES-p10.md",
-    note=("Trusted: Lean kernel; correspondence is tested (exhaustive over the stated alphabet/lattice, sampled beyond); "
-          "strtod (num/isnum on text) is libc and %.16g printing goes through the kernel-opaque Float: num(str(d)) = d and "
-          "isnum <=> num are checked on the implementation only (not theorems); "
-          "the hazard regions recorded earlier (decimal positions outside int64, INT64_MIN start, hex pad count) were repaired; no C10 finding is open."),
-    technique="Lean 4 proof over a hand model + differential correspondence (exhaustive short strings x lattice)")
+    text=("Lean 4 model of 53 built-ins as total functions over byte lists with C hazards as outcomes: the string/bytes/conversion "
+          "ones (substr family, strpos, replace, trim family, upper/lower, tokenize, strlen, hex, hash, chr, raw, str incl. an exact "
+          "%.16g in rational arithmetic, int, Base64) and, since round 2, num / isnum through an exact model of std::stod "
+          "(Model/Strtod.lean: decimal / hex / inf / nan grammar, correct rounding, glibc's ERANGE rule `tiny after rounding and "
+          "inexact`), bool isnull typeof sign round max min mod atan2 clamp, 15 libm maps, pi ee phi. 66 theorems "
+          "(BlocV.Proofs.C10): b64dec_b64enc for ALL byte lists, int_str_roundtrip for every Int64, substr/subraw = Spec.Text.substr "
+          "for all strings and ALL Int64 positions/counts, substr_returns_sublist, null in => typed null out, hex/abs/pow/strpos/"
+          "replace/trim/hash/tokenize_join contracts, chr / put / concat code range; NEW isnum_iff_num (ALL byte strings, as string "
+          "and bytes: isnum true <=> num returns a decimal), isnum_total, num_leading_nul, num_str_roundtrip_partial (±0, ±inf, NaN "
+          "and kernel-checked closed instances), num_str_subnormal_fails (negative), sign / max_min / clamp contracts, "
+          "mod_eq_operator, bool_isnull_typeof, all_builtins_no_hazard (all 53 x every argument list), strlen / case / trim / "
+          "hash_8bit (NUL and bytes >= 0x80 are data). Tie (~49.5k cases, ASan+UBSan; arguments as variables and temporaries, "
+          "dumped after the call): short strings x position lattice; num.exhaustive2/3 (every string <= 3 over a 10-character "
+          "alphabet, <= 2 over 29), num.grammar, num.boundary (exact midpoints between doubles, subnormal / overflow thresholds), "
+          "numstr (num(str(d)) on the double lattice), math1, math2, round2, clamp, conv.types, int.decimal."),
+    design_ref="DESIGN.md §6 C10, §11, §12, notes/NOTES-p10.md, notes/NOTES-r10.md, notes/NOTES-C10.md",
+    note=(TRUST + "; correspondence is tested (exhaustive over the stated alphabets/lattices, sampled beyond). IEEE functions "
+          "(libm, fmod, pow) are Lean's Float = the same libm, executed not proved; the correct-rounding theorems of the stod and "
+          "%.16g models are missing, so num(str(d)) = d is proved at closed instances and tested on the lattice. Open finding "
+          "C10.num.subnormal.erange (num(str(d)) raises OUT_OF_RANGE for subnormals, DBL_MIN, DBL_MAX). `Arguments unchanged` is "
+          "vacuous at value level and checked by the dumps. Not modelled: random, read*, input, getsys/getenv, imaginary operands."),
+    technique="Lean 4 proof over a hand model (incl. exact strtod / %.16g arithmetic) + differential correspondence (exhaustive short strings x lattice)")
+
+CHECKS["C11"] = dict(
+    category="proof",
+    text=("Lean 4 model of what a parse does to the context, as a machine over events (registerSymbol with its backup list, "
+          "FOR/FORALL/IF/WHILE/BEGIN clause entry and exits with the safety/lock flags and the exec stack, createOrReplace/rollback, "
+          "catch-block unwinding, parsingEnd's reverse-order restore); round 2 added the clause entries AS WRITTEN (without assumed "
+          "guards), statement heads by NAME (parseTextN), HISTORIES of texts in one context carrying left-over names and "
+          "FunctorManager::_backed, and a session model (Model/Session.lean: parse tables + interpreter state). Theorems "
+          "(BlocV.Proofs.C11, 26) for EVERY event sequence / context / structure hash: parsingEnd_restores, clause_flags_restored, "
+          "reject_restores_symbols, accept_keeps_flags, reject_restores_functions_partial, failed_redefinition_rolled_back_*, "
+          "context_usable_after_reject; NEW for_guard_derived / forall_guard_derived (the guards follow from registerSymbol), "
+          "statement_level_is_id_level, reject_restores_flags_nested (any nesting depth, both exits), parse_independent_of_fbacked, "
+          "later_parse_independent_of_rejected (the simulation: a later text not mentioning names only the rejected text introduced "
+          "parses exactly as without it), history_without_rejected(_anywhere), runHistory_invariants, "
+          "session_history_without_rejected / reject_then_run_eq_run (same verdicts AND the same interpreter run), "
+          "later_parse_depends_on_leftover_names (the exclusion is needed; witness confirmed on the library). Negation at the "
+          "complete-redefinition witness: one recorded finding. Tie: context snapshots at every reader call explained as model "
+          "events; truncation / corruption at EVERY token through library, C API and interactive path; twin probes; histories of "
+          "2..4 texts (shapes RV VR VRV RRV VRVR RVRV, every truncation of every pool text) through driver hist with the twin "
+          "history without the rejected text, three execution paths, sess; the loop heads read off the trace must be those of the "
+          "text. ~33k cases."),
+    design_ref="DESIGN.md §6 C11, §11, §12, notes/NOTES-C11.md",
+    note=(TRUST + "; the event vocabulary comes from reading the five parse_clause functions, tied by the trace correspondence; "
+          "`aligned` (the three pool columns have one length) is a hypothesis kept by every text (history_keeps_invariants); the "
+          "exclusion `T does not mention R's left-overs` is on statement heads in the model, expression reads are excluded by a "
+          "token-level test in the check; removing SEVERAL rejected texts at once is not stated; the session model's run-time half "
+          "is tied by test (sess), texts with typed declarations are outside the front end; function identity = Functor address "
+          "within a case. Open: C11.complete_redefinition_survives_reject."),
+    technique="Lean 4 proof over a hand model (event machine, lift simulation over histories) + trace-refinement correspondence (model-explained snapshots) + differential twin runs",
+)
+
+CHECKS["C12"] = dict(
+    category="proof",
+    text=("Lean 4 model of the BLOC parser (token stream of the C13 scanner -> parse trees keeping the `enc` flag; nine precedence "
+          "levels, literals incl. std::stoull and the shared exact std::stod model, the whole statement grammar) and a byte-exact "
+          "model of every unparse function. Theorems (BlocV.Proofs.C12, 46): expr_roundtrip — parse o unparse = norm on TOKENS for "
+          "every well-formed expression of EVERY node kind (operators, literals, parentheses, built-in / user calls, member calls, "
+          "set@, items, argument lists and member chains of any length); print_roundtrip (side condition itemsSep explicit); "
+          "stmt_roundtrip (every statement kind incl. if/elsif/else, while, for, forall, begin/exception, function declarations, "
+          "nested to any depth), block_roundtrip, program_roundtrip; program_roundtrip_bytes / unparse_fixpoint_program_bytes "
+          "(parseText (unparseProgram p) = normP p on BYTES given the one decidable hypothesis hscan: the saved bytes scan to the "
+          "token list); parse_fuel_suffices; unparse_fixpoint_program, behaviour_preserved_program (ALL programs: unparse o normP = "
+          "unparse, translate o normP = translate); decimal_roundtrip_iff (a decimal leaf round-trips iff std::stod re-reads its "
+          "%.16g text); literal and integer round trips; stmt_do_roundtrip. The full property is FALSE on this tree (%.16g not "
+          "injective, wrapped integer literals, fused print items: proved negations, recorded findings). Tie: Executable::unparse "
+          "vs the model byte for byte on generated programs over the full grammar (families forms: members, items, set@, forall, "
+          "typed declarations…; rdecb: 32 boundary decimal literals; up to 14 nested parentheses), re-parse in a twin, re-run, "
+          "second unparse; per case the driver evaluates ptoks (= hscan), prt, wfp, pfix, pfuel, isep. ~3k programs."),
+    design_ref="DESIGN.md §6 C12, §11, §12, notes/NOTES-C12.md, notes/NOTES-r12.md",
+    note=(TRUST + ". NOT proved: that the saved bytes scan to the token lists the theorems speak about (hscan is evaluated through "
+          "the C13 lexer model on every case; Lemmas/Scan.lean proves the identifier / punctuation lexemes only); no closed-form "
+          "class of decimals satisfying decimal_roundtrip_iff. Type/symbol checks of the C++ parser are outside the model (domain = "
+          "accepted programs). Open: C12.decimal_16_digits, C12.wrapped_integer_literal, C12.print_items_fuse."),
+    technique="Lean 4 proof over a hand model (recursive-descent parser inverts unparse: continuation-form induction over precedence levels, member chains, argument lists and blocks; structural fixpoint/behaviour theorems) + unparse/reparse/rerun correspondence with per-case evaluation of the theorem statements")
 
 CHECKS["C13"] = dict(
     category="proof",
     text=("Lean 4 model of the scanner as per-chunk maximal munch over the 28 rules of tokenizer.lex with start conditions, "
-          "chunking as tokenizer_buf, reassembly as Parser::next_token and the line readers; theorems (BlocV.Proofs.C13): for "
+          "chunking as tokenizer_buf, reassembly as Parser::next_token and the line readers; theorems (BlocV.Proofs.C13, 11): for "
           "EVERY text and EVERY fragmentation in which each chunk but the last ends after a newline the chunked token stream "
           "equals the whole-text stream (lex_line_aligned, pop_line_aligned, fragmentation_independent), lineReader max yields "
           "such a fragmentation iff no line exceeds max (lineReader_aligned), CRLF = LF, hence layout independence for texts "
           "with lines <= 1023 bytes and no NUL; the full property is FALSE on this tree and its negation is proved at "
           "concrete witnesses (recorded known findings). Tied to /repo by comparing Parser::pop() token streams under every "
           "single split, multi-splits, fixed sizes, the library's own StringReader and the command line's ReadFile "
-          "(apps/read_file.cpp on a FILE*), in LF and CRLF form incl. lines whose CR / LF fall on the 1023-byte buffer edge, and by comparing the rule list with tokenizer.lex."),
-    design_ref="DESIGN.md §6 C13, notes/NOTES-C13.md",
-    note=("Trusted: Lean kernel; the flex-generated automaton (lex._tokenizer.c) is compared with the model on token streams, "
-          "not translated; StringReader and ReadFile share one model reader (lineReader 1023 after CR removal)."),
-    technique="Lean 4 proof (chunked lexer = whole lexer on line-aligned fragmentations) + token-stream correspondence")
-
-CHECKS["C18"] = dict(
-    category="proof",
-    text=("csv and utf8 halves by Lean 4 proof: csv_roundtrip (deserialize(serialize row) = row for every row other than the single "
-          "empty field, every field content, every separator != encapsulator) and csv_linewise; utf8: decoding the RFC 3629 "
-          "encoding of any list of non-zero scalars gives that list, count/at/substr/insert/remove/string agree with the list "
-          "functions, utf8_args_total characterises the only out-of-bounds access (at beyond the end: recorded finding); models "
-          "are transcriptions of csvparser.cpp / utf8helper.cpp tied by an exhaustive small-alphabet differential run of the "
-          "real classes (harness/modprobe.cpp, ASan+UBSan). file and sqlite3 halves: Lean models of plugin_file.cpp (mode parsing, "
-          "fwrite as a walk, the 4096-byte read loop, readln, seeks, every null/closed check) and of plugin_sqlite3.cpp (bind/fetch "
-          "value mapping, statement state machine); file_write_read_roundtrip (all data, all chunkings, all read counts), "
-          "readLoop_eq (= take n), fwriteBytes_eq_writeAt and per-call refinement of a POSIX spec (Spec/FileSpec.lean), "
-          "file_args_total, sqlite_value_roundtrip + proved negations for what SQLite's storage classes do not preserve (boolean, "
-          "NaN, empty bytes, typed null); tied to the REAL .so modules (ASan+UBSan, in-process, one BLOC statement per call) and to "
-          "independent readers (Python reading the file, Python's sqlite3 reading the database) by ~1900 (quick) differential histories."),
-    design_ref="DESIGN.md §6 C18, §11, notes/NOTES-C18.md, notes/NOTES-C18F.md",
-    note=("Trusted: Lean kernel; correspondence tested (exhaustive over rows <= 3 fields x <= 3 bytes over {sep, enc, space, LF, CR, a}; "
-          "byte strings <= 3 over a boundary alphabet); charmap tables (upper/lower/normalisation) out of scope; glibc stdio and SQLite "
-          "are trusted (their behaviour is what the models' fread/fwrite/fseek and storage classes say; tested, not proved); one "
-          "handle per file, regular files, fixed SQL shapes; stat/dir/errmsg unmodelled; whole-sequence refinement and the "
-          "readln/dirname specs are not proved."),
-    technique="Lean 4 proof (round trip / refinement to list functions) + exhaustive differential correspondence")
-
-CHECKS["C06"] = dict(
-    category="proof",
-    text=("Lean 4 interpreter model (BlocV/Model/Interp.lean: statements, the loop combinators forLoop / whileLoop / forallLoop "
-          "transcribing FORStatement / WHILEStatement / FORALLStatement::doit, forall iterators as pointers into the traversed "
-          "table with forallExit = finalizeControl, blocks, signals). Theorems (BlocV.Proofs.C06, 43): exec_for_visits — the `for` "
-          "statement runs its body exactly over Spec.forRange for ALL Int64 first/limit/step and the three directions "
-          "(forLoop_visits_up/down: no wrap-around at INT64_MAX/MIN), forRange_closed_form/length, exec_for_terminates, null "
-          "first/limit/step => zero iterations, step < 1 => OUT_OF_RANGE before anything runs; exec_forall_var_visits — forall "
-          "visits exactly forallOrder (each index once, requested order), exec_let_through_iterator — a write through the iterator "
-          "replaces exactly that element; iters_balanced / exec_iters_frames — by mutual induction over the whole interpreter: "
-          "after ANY statement, block, call or expression, whatever the outcome (any flow, BLOC error, hazard, out of fuel), the "
-          "stack of running forall loops is what it was (no iterator constraint or table lock survives), forallExit_pops resets "
-          "the iterator; break/continue/return/error lemmas for the three loops; execList_stops. Tied to /repo by an exhaustive "
-          "for-header lattice (incl. INT64 extremes and nulls), forall families (sizes 0..4 and null x direction x variable / "
-          "temporary source x read / write through the iterator / break / continue / raise / return at each index; nested on one "
-          "and two tables; table changed and iterator retyped afterwards), bounded-exhaustive nestings of for/while/forall with "
-          "every exit at every position, bodies modifying the control variable, and seeded random structured programs (half with "
-          "tables); printed sequences, final variables, control/exec depth and constraint flags compared with the model."),
-    design_ref="DESIGN.md §6 C06, §11, notes/NOTES-p0608.md",
-    note=("Trusted: Lean kernel; the interpreter model evaluates over values (C05 links it to the storage discipline); "
-          "correspondence tested. The compile-time refusal of changing a traversed table is C09's/C11's subject; forall over a "
-          "temporary is covered by the correspondence, its statement-level theorem is for a variable source. The one finding "
-          "(a body nulling the for control variable dereferenced null) was repaired: forLoop_null_iterator / exec_for_null_iterator "
-          "state the NOT_INTEGER outcome."),
-    technique="Lean 4 proof over an interpreter model (loop theorems vs Spec.forRange / forallOrder, control-stack balance by mutual induction) + program-level differential correspondence")
-
-CHECKS["C07"] = dict(
-    category="proof",
-    text=("Lean 4 theorems (BlocV.Proofs.C07, 18) over the interpreter model: the catchable set is generated from "
-          "RuntimeError::THROWABLES and `when others` matches exactly user names + OUT_OF_RANGE + DIVIDE_BY_ZERO; a named "
-          "built-in clause matches exactly its error; the FIRST matching clause of the block runs from the state the error "
-          "left (handler_selection); an unmatched or uncatchable error leaves the block unchanged and reaches the host; nested "
-          "blocks: inner_unmatched_reaches_outer, inner_matching_handles; error_in_callee_reaches_callers_block; "
-          "no_residue_control_stack / no_residue_after_run (the forall/iterator stack after a handled or reported error is what "
-          "it was before the block: uses C06.iters_balanced), handled_flow_is_handlers_flow (a pending break/continue/return is "
-          "the handler's, nothing is left behind), continues_after_handled; raise_outcome, user_raise_matches_same_name / "
-          "_not_matched_by_other_name. Tied to /repo by generated nestings x failing operation x handler-name sets at two levels, "
-          "each followed by a probe program in the same context, with control/exec depth and constraint flags read through the "
-          "BLOC_VERIF accessors (no residue)."),
-    design_ref="DESIGN.md §6 C07, §11, notes/NOTES-p0608.md",
-    note=("Trusted: Lean kernel; the C++ control stacks (for/while `safety`, exec level) other than the forall stack have no "
-          "counterpart in the value-level model: their emptiness after an error is observed (dump after every run + probe "
-          "program), not proved; error@1/@2 are not modelled; C++ unwinding assumed to run the transcribed catch blocks; the "
-          "interactive runner (apps/cli_parser.cpp) is covered by C19."),
-    technique="Lean 4 proof over an interpreter model + generated-nesting differential correspondence")
-
-CHECKS["C08"] = dict(
-    category="proof",
-    text=("Lean 4 theorems (BlocV.Proofs.C08, 15): a call equals finishCall(caller, body run from calleeInit(f, argument values)); "
-          "call_independent_of_caller / call_determined_by_argument_values — result, output and callee run depend on the caller "
-          "only through the output stream and work budget, for the full callFunc incl. argument evaluation; "
-          "callee_cannot_modify_caller, caller_untouched; locals_start_unset (every declared symbol a typed null at every call); "
-          "argument_bound_by_value; overload_by_arity, overloads_coexist; failing_argument_fails_call; recursion_limit (depth 255 "
-          "raises RECURSION_LIMIT without evaluating anything; the constant is generated from functor_manager.h) and "
-          "recursion_limit_exact (255 nested calls succeed, the 256th raises — by kernel evaluation of a concrete recursive "
-          "function). Tied to /repo by placing the same probe call after generated call histories (conditionally assigned / "
-          "re-typed locals, recursion to the limit, mutual recursion, failing calls, overloads, self-calling arguments)."),
-    design_ref="DESIGN.md §6 C08, §11, notes/NOTES-p0608.md",
-    note=("Trusted: Lean kernel; the model creates a fresh callee state per call, the C++ recycles contexts and resets them "
-          "(fix commit b7b8574): their equivalence is exactly what the correspondence tests. random()/stdin are documented global "
-          "inputs and not modelled; n-parameter binding by value is proved for one parameter and tested for more."),
-    technique="Lean 4 proof over an interpreter model + call-history differential correspondence")
-
-CHECKS["C05"] = dict(
-    category="proof",
-    text=("Lean 4 storage-level model (BlocV/Model/Store.lean: variable / constant / temporary cells with the LVALUE flag, "
-          "Pool::keep, LVAL1/LVAL2, which operand each operator cell returns or overwrites, storeVariable's swap/clone). "
-          "Theorems (BlocV.Proofs.C05): eval_frame (under the flag invariant, evaluating ANY expression over constants, variables "
-          "and the operators leaves every variable slot and constant cell unchanged and re-establishes the invariant), "
-          "eval_refines (the storage-level evaluator computes exactly the value-level result, same errors), eval_pool_discipline, "
-          "eval_after / eval_twice_equal / eval_error_repeatable (temporaries of one expression never leak into the next; equal "
-          "results on re-evaluation), assign_copies, assign_independent (after b = a no later store to one is visible through the "
-          "other), assign_refines, assigns_leave_others (any sequence of assignments not targeting b leaves b alone). Tied to /repo "
-          "by evaluating every operator / built-in node x operand class x operand source three times through Expression::value "
-          "with deep dumps (value, type, LVALUE flag) of every variable slot before and after, and by random alias programs — "
-          "since this round also with tables: copy a table, change the original in place (concat/put) and through a forall "
-          "iterator, print both — against the value-semantics interpreter (Model/Interp.lean)."),
-    design_ref="DESIGN.md §6 C05, §11, notes/NOTES-p0305.md",
-    note=("Trusted: Lean kernel; the per-operator placement table (which operand is returned/overwritten) is transcribed by hand "
-          "and its observable consequences are tested; container elements, in-place members, tab/tup construction and "
-          "user-function arguments are NOT in the storage-level model (LExpr has constants, variables, operators): for them "
-          "value semantics is what the interpreter model assumes and the program-level correspondence tests; objects are shared "
-          "by reference as documented (C17)."),
-    technique="Lean 4 proof (frame + refinement theorems over a storage-level model) + dump-based differential correspondence")
-
-CHECKS["C02"] = dict(
-    category="proof",
-    text=("Static typing model (Model/Typing.lean: typeChecking/assertTypeUniform, the operators' type() rules, the built-in "
-          "signature and result-type tables GENERATED from every builtin_*.cpp/.h on each run) with Lean theorems "
-          "(BlocV.Proofs.C02): bin_type_sound — for the 15 binary operators other than - * / ** % an .ok result has EXACTLY the "
-          "static type, all operands; bin_type_sound_static_partial — for all 20 operators with exact or opaque operand types, "
-          "outside the decidable region binTypeGap, whose exactness is proved (bin_type_gap_exact: inside it every result "
-          "contradicts the static type; witnesses `null - 1`, `null % null`, `idf(5) - 3` replayed on the implementation = "
-          "recorded known findings); un_type_sound for all unary operators; accept_implies_no_type_error_partial (+ negations: "
-          "`true + false`, `t < t`, `5 % ii`, `~2.5` are accepted and fail at run time); builtin_type_sound_partial for 16 "
-          "built-ins (negation: b64dec(null)). The property itself is also checked on the implementation node by node — "
-          "Expression::type() in parsing mode vs the type of the evaluated value for every operator and ~45 built-ins x operand "
-          "classes x (typed variable | opaque function result) — and program by program (one unit vs statement-at-a-time; `$` "
-          "variables, loop iterators, retyping)."),
-    design_ref="DESIGN.md §6 C02, §11, notes/NOTES-p0102.md",
-    note=("Trusted: Lean kernel, extract/sigs.py. The full statement is FALSE on this tree (arithmetic with an untyped null / "
-          "opaque operand is typed decimal statically): 20 recorded known findings by operator / built-in cell. Built-ins outside "
-          "the 16 proved ones and container members are decided by the exhaustive static/dynamic comparison (testing)."),
-    technique="generated typing tables + Lean 4 type-soundness theorems with exact gap regions + exhaustive static/dynamic type comparison")
-
-CHECKS["C01"] = dict(
-    category="proof",
-    text=("C-level hazards (null dereference of a typed accessor, signed overflow, out-of-range double->integer cast, foreign "
-          "exception, divergence) are OUTCOMES of the Lean model, not things it cannot do. Theorems (BlocV.Proofs.C01): "
-          "evalUn_no_hazard and evalBin_no_hazard — every unary and all 20 binary operators, EVERY pair of values (nulls, typed "
-          "nulls, tables, tuples, every Int64, every double), both aliasing flags, never reach a hazard (hypothesis: table values "
-          "have level >= 1, shown necessary by evalBin_hazard_witness and preserved by evalBin_ok_tabOk); pure_no_hazard lifts this "
-          "to every expression tree incl. short circuit; evalBuiltin_no_hazard: all 23 modelled built-ins for all argument lists "
-          "(substr/subraw: the string length fits int64); evalBuiltin_repaired_witnesses: the former overflow witnesses (substr/"
-          "subraw at INT64_MIN, hex pad count, abs, pow) return values since their repair; int_of_decimal_no_hazard for all 2^64 "
-          "bit patterns. Tied to /repo by running EVERY built-in (generated keyword "
-          "list) x arity x operand class (boundary values always) x operand source, every operator and member method, and generated "
-          "programs mutated at every token position + byte edits, under ASan+UBSan+float-cast-overflow through Parser::parse, the C "
-          "API and the statement-at-a-time path: any outcome other than value / parse error / runtime error is reported."),
-    design_ref="DESIGN.md §6 C01, §11, notes/NOTES-p0102.md",
-    note=("Trusted: Lean kernel; sanitizers as the oracle for undefined behaviour; for the built-ins and members not covered by "
-          "a no-hazard theorem the verdict comes from the exhaustive sanitizer run (testing), with every crash either a listed "
-          "known finding (construct + crash class + witness; none is open for C01 after the repair rounds) or a violation. Stack/heap exhaustion is outside the property's "
-          "domain (bounded nesting / sizes in the generators). The parser itself is not modelled here (C12/C13 model it): "
-          "malformed text is covered by mutation testing only."),
-    technique="Lean 4 no-hazard theorems (all operators, 18 built-ins, expression trees) + exhaustive construct x operand-class sanitizer run + token-level text mutation")
-
-CHECKS["C19"] = dict(
-    category="proof",
-    text=("Lean 4 proof about a transcription of apps/main.cpp, main_options.cpp, cli_parser.cpp (statement loop), read_file.cpp: "
-          "exit_zero_iff_success (every library outcome x every output selection, and at the level of main for every argv), "
-          "stdout_eq_library_output (selected output = library output ++ rendering of the returned value; --out leaves stdout empty), "
-          "arg_table_faithful (argv = options ++ file :: args for every argv; $ARG = args in order), stderr_class, expr_mode_contract, "
-          "interactive_eq_batch_partial (declarations first, no unhandled error, no top-level return => same final state as batch), "
-          "with the negations at the recorded witnesses (returned table/bytes not printed; interactive mode continues after return; "
-          "function redefinition). The parser is a parameter of the model. Tie to the code: 1000 (quick) process runs of the REAL "
-          "sanitizer-built executable compared with the in-process library probe and the model: exit status, stdout bytes, stderr class "
-          "and position, --out file, interactive transcript; argument vectors with blanks/quotes/UTF-8/leading '-'/empty/3000-byte words."),
-    design_ref="DESIGN.md §6 C19, notes/NOTES-C19.md",
-    note=("Trusted: Lean kernel; the subprocess plumbing of vlib/props/c19.py; parser verdicts are inputs of the model (from the generator's "
-          "AST and the probe). Normalised, not modelled: readline echo, Elapsed figure, version line, message texts, deferred output of a "
-          "failing print in -i. Not covered: CLI commands other than exit, --debug/--color output, a tty."),
-    technique="Lean 4 proof of the decision logic + process-level three-way differential test")
-
-CHECKS["C12"] = dict(
-    category="proof",
-    text=("Lean 4 model of the BLOC parser (token stream of the C13 scanner -> parse trees keeping the `enc` flag; nine precedence "
-          "levels, literals incl. std::stoull/strtod, the whole statement grammar) and a byte-exact model of every unparse function; "
-          "theorems (BlocV.Proofs.C12): parse o unparse = norm on every well-formed tree of the operator core (all 25 operators, "
-          "variables, literals, parentheses) at every precedence level and for assignment statements (also chained), literal and "
-          "integer round trips for all strings the parser can build / all non-negative integers, unparse o norm = unparse and "
-          "translate o norm = translate for all node kinds (fixpoint, behaviour preserved); the full property is FALSE on this tree: "
-          "%.16g is not injective and two further regions (wrapped integer literals, fused print items) are "
-          "witnessed by proved negations and recorded as known findings; DO statements round-trip since the repair of "
-          "DOStatement::unparse (stmt_do_roundtrip, stmt_do_fixpoint). Tied to /repo by comparing, for generated programs over "
-          "the full grammar (every operator pair x parenthesis shape, all literal forms, chained statements, nested blocks, typed "
-          "functions, exception clauses), Executable::unparse with the model byte for byte, re-parsing the text in a twin context, "
-          "running both and comparing results, output, dumps and the second unparse."),
-    design_ref="DESIGN.md §6 C12, notes/NOTES-C12.md",
-    note=("Trusted: Lean kernel; theorems are on token lists — that unparse text scans to those tokens is evaluated through the C13 "
-          "lexer model on every case, not proved; type/symbol checks of the C++ parser are outside the model (domain = accepted "
-          "programs); calls/members/items and non-assignment statements are covered by the correspondence only."),
-    technique="Lean 4 proof (recursive-descent parser inverts unparse on the operator core) + unparse/reparse/rerun correspondence")
+          "(apps/read_file.cpp on a FILE*), in LF and CRLF form incl. lines whose CR / LF fall on the 1023-byte buffer edge, and by "
+          "comparing the rule list with tokenizer.lex; ~121k cases. Model, proofs and check unchanged in round 2; C12 "
+          "(Lemmas/Scan.lean) and C19 (reader_delivers_every_byte for apps/read_file.cpp) build on this model."),
+    design_ref="DESIGN.md §6 C13, §11, §12.3, notes/NOTES-C13.md",
+    note=(TRUST + "; the flex-generated automaton (lex._tokenizer.c) is compared with the model on token streams, "
+          "not translated; StringReader and ReadFile share one model reader (lineReader 1023 after CR removal). The private reader "
+          "of included sources (statement_include.cpp, a copy of apps/read_file.cpp) is read by no family: a seeded byte loss "
+          "there was missed (DESIGN §12.3). Open: C13.unaligned_chunk_splits_token, C13.nul_truncates_chunk, C13.reader_drops_lone_cr."),
+    technique="Lean 4 proof over a hand model (chunked lexer = whole lexer on line-aligned fragmentations) + token-stream correspondence")
 
 CHECKS["C14"] = dict(
     category="proof",
-    text=("PARTIAL: proof of schedule-independence OF A MODEL at statement granularity + threaded differential test; the C++ "
-          "memory model is outside. Lean 4 model (BlocV.Model.World) of several contexts in one process: shared immutable "
-          "executables, the shared MUTABLE cells enumerated from the source on every run by extract/shared.py (every `mutable` "
-          "member / non-const static; a new one breaks all_shared_cells_classified), per-context state = the interpreter state of "
-          "Model/Interp.lean; operations compile/start/step/clone/purge/free. Theorems (BlocV.Proofs.C14): clone_copies; footprint "
-          "and reads_footprint (an operation writes only its context + {_level, error record} and reads no shared "
-          "mutable cell); steps_commute; interleaving_eq_sequential for EVERY schedule of any number of contexts; "
-          "purge_free_independent; shared_writes_benign (constant cells never written, citing C05.eval_frame; all writers of a "
-          "node's _level write the same value provided every exec stack is empty between runs); error_record_is_last_writer "
-          "(negative); what_buffer_is_thread_local / what_buffer_private / handler_found_under_every_schedule (since the repair of "
-          "Error::what: the buffer is listed by the extractor as per-thread state; losing `thread_local` brings it back into the "
-          "shared list and breaks the obligation); 37 theorems. Tied to /repo by harness/thrprobe.cpp: scripts of clone/run/purge/free with 2..8 clones on std::threads vs "
-          "the same script sequentially vs World.apply under a random interleaving, per-context results, outputs (own fd per "
-          "clone) and all variables compared; thorough tier adds a ThreadSanitizer build whose every report is classified by its "
-          "site pair against the recorded findings."),
-    design_ref="DESIGN.md §6 C14, notes/NOTES-C14.md",
+    text=("PARTIAL: schedule-independence OF A MODEL at statement granularity, the model tied to the interpreter semantics by an "
+          "exact theorem, + threaded differential test; the C++ memory model is outside. Lean 4 model (Model/World.lean) of several "
+          "contexts in one process: shared immutable executables, the shared MUTABLE cells enumerated from the source on every run "
+          "(extract/shared.py), per-context state = the state of Model/Interp.lean; round 2: Context::clone member by member (incl. "
+          "trusted copied, trace not), purge, host calls (break, reset_stop, trusted, trace), re-installation of a function by an "
+          "executed declaration, calls and variables linked by TABLE INDEX as in the code. Theorems (BlocV.Proofs.C14, 115): "
+          "footprint / reads_footprint, steps_commute, interleaving_eq_sequential for EVERY schedule, purge_free_independent, "
+          "shared_writes_benign, what_buffer_is_thread_local, error_record_is_last_writer (negative); NEW world_run_eq_runProgram "
+          "and clones_run_eq_runProgram (a context — every clone, under ANY interleaving — stepped to the end IS Interp.runProgram: "
+          "outcome, variables, output; hypothesis StableDecls discharged by the checkable wfDecls: stableDecls_of_wf, *_wf; "
+          "stableDecls_needed), clone_copies_functions (entry by entry, in order, overloads included), index_call_eq_name_call + "
+          "reachable_index_call_eq_name_call (tables of all reachable worlds hold each signature once), "
+          "reset_skipping_names_is_not_a_copy (a seeded copy loop as proved counter-model), clone_independent_functions, "
+          "clone_stop_independent, purge_original_keeps_clone, clone_flags, linked_preserved_run, clone_keeps_linked. Tie "
+          "(harness/thrprobe.cpp): scripts with 2..8 clones on std::threads vs sequential vs World under a random interleaving; "
+          "results, outputs, variables and now function table (order), flags, stop condition; families over (150 overload tables x "
+          "clone trees), redef (60), hist + hist-kill (111: pending return / break / purge / free at every position), redecl, "
+          "unlinked; 1250 scenarios, 5000 harness runs; thorough adds a ThreadSanitizer build, every report classified by site pair."),
+    design_ref="DESIGN.md §6 C14, §11, §12, notes/NOTES-C14.md, notes/NOTES-r14.md",
     note=("Full property is FALSE on the tree: data races on Statement::_level, the process-wide error record, the RNG statics, "
-          "_type_volatile — recorded known findings; repaired after being found by this check: two lifetime defects (137dbae, "
-          "4769647) and Error::what's shared static buffer (a handled user exception could miss its handler). Thread interleavings are sampled, not enumerated. Trusted: Lean "
-          "kernel; extract/shared.py's regex listing; thrprobe; ThreadSanitizer for unlisted races on executed paths."),
-    technique="Lean 4 proof (commutation + induction on schedules over an extracted shared-cell footprint) + threaded differential testing under ASan/TSan")
+          "_type_volatile — recorded findings. Thread interleavings are sampled, not enumerated. The re-installation of a function "
+          "by an executed declaration is modelled in World, not in Interp.runProgram (gap recorded: stableDecls_needed; harmless for "
+          "programs declaring each signature once). Not proved: that assignment never reorders symbol slots (symLinked is computed "
+          "and compared), that every function body in every table is linked. Runs of an executable in a context that does not "
+          "continue its compile-time tables are flagged (linked=0) and not predicted (candidate finding "
+          "C15.execute2_foreign_executable_unchecked). " + TRUST + "; extract/shared.py's regex listing; thrprobe; ThreadSanitizer "
+          "for unlisted races on executed paths."),
+    technique="Lean 4 proof over a hand model (commutation + induction on schedules over an extracted shared-cell footprint; simulation World.step <-> Interp.execList with exact fuel; prefix / no-duplicate invariants of the function table) + threaded differential testing under ASan/TSan")
 
-CHECKS["C09"] = {
-  "category": "proof",
-  "text": "Lean 4: value-level model of at/put/insert/delete/concat/count/set@/@N/tab/tup (Model/Members.lean, transcribed from "
-          "blocc/member/*.cpp, builtin_tab/tup.cpp, expression_item.cpp, statement_forall.cpp) against the list specification "
-          "(Spec/Containers.lean: uniformity with tuples compared by declaration). Theorems: uniform_preserved_partial (induction over "
-          "every operation sequence; hypotheses: declarations in play hash injectively, no call in the level-mixing region), "
-          "at/delete/put/insert/str_at/item index contracts for every position value, tuple_structure_fixed, "
-          "forall_visits_once_in_order, forall_length_fixed, make_type_collision and the negations at the recorded witnesses. "
-          "Correspondence: 35k member × receiver × argument × position cases under static and opaque typing, operation sequences, "
-          "forall programs, under ASan/UBSan, compared with model and spec.",
-  "note": "partial: the full statement is false on the pinned tree (C09.tuple.hashCollision, C09.tuple.hashZero, C09.mix.level, "
-          "recorded; the four null-element dereferences of put/insert/concat/set@ were repaired: mix_null_stores_null, table_methods_no_hazard); value refinement of put/insert/concat and forall at statement level are "
-          "checked by correspondence only.",
-  "technique": "interactive theorem proving (Lean 4 core) + exhaustive lattice differential testing against the executable model",
-}
-
-CHECKS["C15"] = {
-  "category": "proof",
-  "text": "Lean 4 handle state machine of blocc/bloc_capi.h (contexts, clones, symbols, values with caller/library ownership, "
-          "expressions, executables, process-wide error record, per-context epochs). Proved for ALL call sequences of the model: "
-          "library_pointer_stable (a pointer handed out at epoch e denotes the same unmodified variable cell in every later state "
-          "whose epoch is still e), error_record_contract (a failing call leaves exactly its code in bloc_errno/strerror; "
-          "successful non-parse calls do not touch it; successful parses clear it), accessor_contract (all eight accessors: succeeds iff the type "
-          "matches, data NULL iff null — full since the repair of bloc_literal/bloc_tabchar on null values), api_script_agree (both directions), "
-          "context_reusable_after_error (rejected text / failing run). Tie to the code: differential run of state-machine call "
-          "sequences (<=40 quick, <=200 thorough) through the real C API only, under ASan+UBSan+LSan, every call's result, "
-          "out-parameters, re-read library pointers and errno/strerror compared with the model.",
-  "note": "PARTIAL. Memory reclamation is NOT modelled: 'no memory remains' is LeakSanitizer's verdict on the generated sequences "
-          "and on every truncation of 7 programs, not a theorem. 8 findings open (errno 0 on EOF, store "
-          "nulls scalar sources, item pointers dangle after store, use-after-free when an executable/clone holding a function outlives "
-          "the declaring context's purge/free, 4 leak sites in parser error paths); 3 repaired (the two accessor null dereferences, "
-          "the callee-context leak when an argument raises). Rejected texts come from a catalog inside the model; the "
-          "parser is not modelled here. bloc_break from a second thread, trace and plugins are outside.",
-  "technique": "Lean theorems over a transcribed state machine (case analysis over 38 ops + invariant by induction on sequences) "
-               "+ model-based differential testing with sanitizers; leak attribution by allocation call-site signature",
-}
-CHECKS["C15"].setdefault("design_ref", "DESIGN.md §6 C15, notes/NOTES-C15.md")
-CHECKS["C15"]["text"] += (" Added after the seeded-mutation round: assign-then-read families (a library-owned variable changed through "
-                          "bloc_assign_* and then only read by scripts keeps value and type) and failing FUNCTION declarations in the "
-                          "rejected-text catalog (no function is left behind, also right after a successful redefinition).")
-
-CHECKS["C16"] = {
-  "category": "proof",
-  "text": "Lean model of PluginManager (loaded modules, granted names), the trusted flag (clone, child shells, purge) and the compile-time tests of constructor calls, import and include; theorem object_implies_granted: invariant over ALL host-operation histories (unban, clear, new/trust/clone/free/purge context, compile any program in any context, run any executable in any context), for every loader; corollary for histories without a trusted context (C API); path_import_refused, include_refused, trusted_unrestricted, ctor_everywhere. Tie to the code: complete enumeration of 5 940 permission configurations through the C++ classes and the C API against the model, plus the property evaluated directly on the library's answers.",
-  "note": "run-time constructor failures and function arity are not modelled; import of a non-granted module by NAME is accepted by the code (the library is loaded, no object can be made) - outside the property.",
-  "technique": "inductive invariant over operation histories (Lean 4) + exhaustive differential enumeration with a verification-only plugin"}
-CHECKS["C17"] = {
-  "category": "proof",
-  "text": "Lean model of the bloc::Complex reference counter, operation by operation (factory, copy/move ctor, destructor, operator=, both swaps) with C-level hazards as outcomes; theorems over ALL operation sequences: refs_eq_live_handles, destroy_at_most_once, destroy_at_zero_only, no_leak_at_quiescence (handle level), no_dangling_counter; store-level operations and a small object language expressed through the handle operations. Tie to the code: every well-formed handle-operation sequence up to length 4/5 on real handles, and random programs (variables, tables, functions, loops, error exits, clones, purge) against the event log of a verification-only module under ASan: constructor/method events and arguments exact, destroy at most once, within [model's earliest release, release of the last context involved], exactly once at quiescence.",
-  "note": "the createEnv path on which an argument raises leaked the callee context: repaired, and no_leak_at_quiescence_ctx is now proved for every store-level history (ownership invariant); program-level no-leak of generated BLOC programs is a correspondence result; temp-pool slot reuse is bounded, not modelled; one recorded defect open (null dereference on a moved-from handle, not script-reachable), one repaired earlier (use-after-free when a clone outlives its origin).",
-  "technique": "invariant over operation sequences (Lean 4) + bounded-exhaustive and random model-based testing with an instrumented plugin under AddressSanitizer"}
-
-CHECKS["C11"] = dict(
+CHECKS["C15"] = dict(
     category="proof",
-    text=("Lean 4 model of what one parse does to the context, as a machine over events (registerSymbol with its backup list, "
-          "FOR/FORALL/IF/WHILE/BEGIN clause entry and both exits with the safety/lock flags and the exec stack, createOrReplace/"
-          "rollback of function declarations, the catch-block unwinding, parsingEnd's reverse-order restore loop); theorems "
-          "(BlocV.Proofs.C11) for EVERY event sequence, EVERY context, EVERY structure hash: parsingEnd_restores, "
-          "clause_flags_restored, reject_restores_symbols (names, types, decls, flags, exec depth, parsing flag of everything "
-          "pre-existing), accept_keeps_flags, reject_restores_functions_partial (texts that do not COMPLETE a redefinition of a pre-existing (name, arity) before "
-          "their error; failed redefinitions anywhere in the table are rolled back: failed_redefinition_rolled_back_not_last / "
-          "_after_new, null_tuple_symbol_restored — positive since the two fix: commits), context_usable_after_reject; the full "
-          "function clause is still FALSE on this tree: negation proved at the complete-redefinition witness — one recorded known "
-          "finding. Tied to /repo by "
-          "snapshotting the context at every reader call of Parser::parse / parseStatement on one-token-per-line texts: every "
-          "observed snapshot must be explained as a model event, the context after a rejected text must equal the model's and, "
-          "outside the finding regions, the context before (values, flags, function identities included); texts truncated and "
-          "corrupted (drop/duplicate/replace) at EVERY token position through library, C API and interactive path; probe programs "
-          "in the disturbed context vs an undisturbed twin."),
-    design_ref="DESIGN.md §6 C11, notes/NOTES-C11.md",
-    note=("Trusted: Lean kernel; the event vocabulary and the guards of clause entry come from reading the five parse_clause "
-          "functions, tied only by the trace correspondence; effects between the last reader call and the error are seen only "
-          "through the final dump (one trailing registration is reconstructed); function identity = Functor address within a case."),
-    technique="proof + trace-refinement correspondence (model-explained snapshots) + differential twin runs",
-)
+    text=("Lean 4 handle state machine of blocc/bloc_capi.h (contexts, clones, symbols, values with caller/library ownership, "
+          "expressions, executables, process-wide error record, per-context epochs). Proved (BlocV.Proofs.C15, 21) for ALL call "
+          "sequences of the model: library_pointer_stable (a pointer handed out at epoch e denotes the same unmodified variable cell "
+          "in every later state whose epoch is still e), error_record_contract (a failing call leaves exactly its code in "
+          "bloc_errno/strerror; successful non-parse calls do not touch it; successful parses clear it), accessor_contract (all "
+          "eight accessors: succeeds iff the type matches, data NULL iff null — full since the repair of bloc_literal/bloc_tabchar), "
+          "api_script_agree (both directions), context_reusable_after_error (rejected text / failing run). Tie to the code: "
+          "differential run of state-machine call sequences (<=40 quick, <=200 thorough) through the real C API only, under "
+          "ASan+UBSan+LSan, every call's result, out-parameters, re-read library pointers and errno/strerror compared with the "
+          "model; assign-then-read families (a library-owned variable changed through bloc_assign_* and then only read by scripts "
+          "keeps value and type) and failing FUNCTION declarations in the rejected-text catalog (no function is left behind, also "
+          "right after a successful redefinition). ~4.6k sequences. Model, proofs and check unchanged in round 2."),
+    design_ref="DESIGN.md §6 C15, §11, §12.3, notes/NOTES-C15.md, notes/NOTES-r15.md",
+    note=("PARTIAL. Memory reclamation is NOT modelled: 'no memory remains' is LeakSanitizer's verdict on the generated sequences "
+          "and on every truncation of 7 programs, not a theorem. 8 findings open (errno 0 on EOF, store nulls scalar sources, item "
+          "pointers dangle after store, use-after-free when an executable/clone holding a function outlives the declaring context's "
+          "purge/free, 4 leak sites in parser error paths); 3 repaired (the two accessor null dereferences, the callee-context leak "
+          "when an argument raises); 1 candidate recorded by C14's index-linking model and not exercised here (bloc_execute2 with an "
+          "executable compiled against other tables). Rejected texts come from a catalog inside the model, the parser is not "
+          "modelled here: the catalog has no type error on the left operand of `**`, so a seeded double delete on that path was "
+          "missed (DESIGN §12.3). bloc_break from a second thread, trace and plugins are outside. " + TRUST + "."),
+    technique="Lean 4 proof over a transcribed state machine (case analysis over 38 ops + invariant by induction on sequences) "
+              "+ model-based differential testing with sanitizers; leak attribution by allocation call-site signature")
 
-CHECKS["C16"]["text"] += (" Added after the seeded-mutation round: the default constructor name() (separate early-return path of the "
-                          "parser), a module granted twice, and a final phase of EVERY history in which the host clears the permissions "
-                          "and a brand-new untrusted context attempts the constructor (must be refused whatever happened before).")
-CHECKS["C17"]["text"] += (" Added after the seeded-mutation round, evaluated directly on the verification modules' event log: method calls "
-                          "compiled for one module whose run-time receiver belongs to the other module (5 program shapes x 4 methods x both "
-                          "directions) and one object referenced by 65535..70000 table elements (counter width).")
-CHECKS["C19"]["text"] += (" Added after the seeded-mutation round: programs whose source lines are 1000..3100 bytes long (string literals across "
-                          "the reader's 1023-byte pieces) through file, stdin and CRLF form.")
-CHECKS["C18"]["text"] += " utf8: inserting an object into itself (the plugin hands the receiver's own storage) is compared with inserting an equal copy."
+CHECKS["C16"] = dict(
+    category="proof",
+    text=("Lean model of PluginManager (loaded modules, granted names), of every member of Context that writes or copies the trusted "
+          "bit (constructors, trusted(), clone, purge, child shells / runtimes, trace, parsingBegin/End) and of the compile-time "
+          "tests of constructor calls, import and include. Theorems (BlocV.Proofs.C16, 17) over ALL host histories — unban, clear, "
+          "new / trust / clone / free / purge / trace-switch of any context, compile of any text accepted or rejected, run of any "
+          "executable incl. trace statements and run-time errors: object_implies_granted, untrusted_history_objects_granted, "
+          "ctor_compiles_iff, path_import_refused, include_refused, trusted_unrestricted, ctor_everywhere_top / _func; round 2: trusted_bit_invariant (no "
+          "operation other than the trust setter on that context changes a context's bit), purge_keeps_untrusted, "
+          "clone_inherits_trust_exactly, capi_history_never_trusted (what the C API can do never yields a trusted context), "
+          "run_keeps_trust, run_ignores_permissions (revocation after compilation does not matter, a later grant does not help). "
+          "Tie: complete product of 8 330 permission configurations (trust x grant x preload x place x import x spelling x form incl. "
+          "the default constructor name(), a module granted twice, and a final phase in which the host clears the permissions and a "
+          "brand-new untrusted context attempts the constructor) + 3 689 host histories over a 21-event alphabet (grant, revoke, "
+          "purge, clone, free, rejected text, run-time error, trace statement / switch, include, import, re-run of an executable "
+          "compiled earlier, trust on/off, new context: all sequences <= 2, thorough 3, random up to 7) through the C++ classes "
+          "and the C API; after EVERY event the trusted bit of EVERY live context is compared with the model and with the "
+          "property's own bookkeeping (model-independent oracle). ~12k cases."),
+    design_ref="DESIGN.md §6 C16, §11, §12, notes/NOTES-C16C17.md, notes/NOTES-C1617.md",
+    note=(TRUST + "; the verification-only plugin harness/vmod. bloc_deinit_plugins mid-session is outside the model (nodes carry "
+          "module names, the C++ numeric type ids): finding C16.deinit_reassigns_type_ids, witnessed on every run. Run-time "
+          "constructor failures and function arity are not modelled in this layer; import of a non-granted module by NAME is "
+          "accepted by the code (the library is loaded, no object can be made) — outside the property."),
+    technique="Lean 4 proof over a hand model (inductive invariant over host-operation histories) + exhaustive / bounded-exhaustive differential enumeration with a verification-only plugin")
+
+CHECKS["C17"] = dict(
+    category="proof",
+    text=("Lean model of the bloc::Complex reference counter, operation by operation (factory, copy/move ctor, destructor, "
+          "operator=, both swaps) with C-level hazards as outcomes; store-level operations; an object language (ObjProg: variables, "
+          "tables, functions, loops, error exits, clones, purge; round 2: table delete / insert / concat, forall, a raising method on "
+          "a temporary, a failing constructor, the returned-value slot); round 2: layer M — modules, the run-time receiver check of "
+          "MemberMETHODExpression, constructor failure, bloc_deinit_plugins. Theorems (BlocV.Proofs.C17, 20) over ALL operation "
+          "sequences: refs_eq_live_handles, destroy_at_most_once, destroy_at_zero_only, no_leak_at_quiescence, "
+          "no_leak_at_quiescence_ctx, no_dangling_counter; NEW method_on_live_matching_object (every recorded method call ran on an "
+          "object created, not yet destroyed, of its own module), receiver_check, args_passed_verbatim, destroy_iff_created, "
+          "deinit_after_release_safe (+ decide witnesses of the null call when objects are still referenced), objprog_refines_store (every instruction, block, loop, call is a sequence of store operations, all error "
+          "exits: replaces `by construction`), objprog_lifetime (program-level exactly-once destruction), "
+          "objprog_method_receiver_live, returned_slot_refines_store. Tie (event log of verification-only modules, ASan): every "
+          "well-formed handle-operation sequence up to length 4/5; random object programs (events exact, destroy within the model's "
+          "window, exactly once at quiescence); meth (300 two-module method histories vs layer M); model-free families "
+          "wrong-module receiver, counter width (65535..70000 references), result-receiver (50), returned-not-taken (76, C API host "
+          "that never collects the value), failure-while-building (176: tab / tup / argument list / member failing midway), deinit. "
+          "~2.8k cases."),
+    design_ref="DESIGN.md §6 C17, §11, §12, notes/NOTES-C16C17.md, notes/NOTES-r15.md, notes/NOTES-C1617.md",
+    note=(TRUST + "; harness/vmod. ObjProg runs on the store layer with one module (the two-module layer M is tied separately by "
+          "meth); set@, tuples of objects and table+table insert/concat are exercised by the model-free families only (their oracle "
+          "is the property on the event log, no theorem claimed); re-import after deinit not modelled; temp-pool slot reuse is "
+          "bounded, not modelled. Open: C17.moved_from_handle_null_deref (not script-reachable), "
+          "C17.deinit_with_live_objects_null_call (host calls bloc_deinit_plugins while objects are referenced). Repaired: "
+          "use-after-free when a clone outlives its origin, callee-context leak on a raising argument, tab(n, expr) leaking the "
+          "elements built before a later repetition raises (87d5eeb)."),
+    technique="Lean 4 proof over a hand model (invariant over operation sequences; simulation by induction on fuel with per-instruction lemmas) + bounded-exhaustive and random model-based testing with an instrumented plugin under AddressSanitizer")
+
+# NOTE: the two C++-level failures named below (utf8 reserve, csv null last element) were repaired in /repo by 2b1dab4 / ad063b9;
+# csv_plugin_args_total / utf8_methods_total and the last sentence of `note` describe the model as it stands in
+# lean/BlocV/Model/Mod: reword the three places when the model follows the repairs.
+CHECKS["C18"] = dict(
+    category="proof",
+    text=("All four modules by Lean 4 proof (BlocV.Proofs.C18 + C18F, 63) + differential runs on the real code. csv: csv_roundtrip "
+          "(every row other than the single empty field, every field content, every separator != encapsulator), csv_linewise; the "
+          "PLUGIN glue (plugin_csv.cpp) is modelled: csv_plugin_ctor, csv_plugin_roundtrip, csv_plugin_next_core (deserialize_next "
+          "hands only T.last to the parser), csv_plugin_linewise, csv_plugin_args_total (every call, every table state: value or "
+          "BLOC error, fault exactly at a null last element of deserialize_next). utf8: decode_illformed (for EVERY byte string the byte-at-a-time "
+          "decoder = the look-ahead RFC 3629 decoder `take a well-formed sequence else drop one byte`, NULs removed), "
+          "decode_valid_agrees, count/at/substr/insert/remove/string = list functions, utf8_methods_total / utf8_history_total "
+          "(15 plugin methods, every argument, whole histories: representation invariant kept, no out-of-bounds, C++-level failure "
+          "exactly reserve(n) beyond max_size / memory). file: file_refines_spec (EVERY list of read/readln/write/seek/position/"
+          "flush calls on every open handle = the POSIX-level Spec/FileSpec run, outside the recorded update-stream region; "
+          "file_refines_spec_oneway unconditional without `+`), file_readln_spec / file_readln_all (line = up to LF, at most 4096 "
+          "bytes per call), file_write_read_roundtrip + _concat, readLoop_eq, file_args_total. sqlite3: sqlite_args_total, "
+          "sqlite_value_roundtrip + sqlite_roundtrip_iff (exact exception list: boolean, NaN, empty buffer-less bytes, typed nulls, "
+          "objects), sqlite_stepfail_rebind / _exec (a constraint failure of execute() does not poison the prepared statement). "
+          "Tie: exhaustive small-alphabet run of the real classes (harness/modprobe.cpp, ~517k cases) and ~2.7k histories through the "
+          "REAL .so modules (ASan+UBSan, one BLOC statement per call: u8.plugin_ops/_self/_reserve, csv.plugin(_rt), file.bufedge, "
+          "sql.stepfail, self-insert) with independent oracles: Python reading the file, Python's sqlite3, a Python CSV writer, the "
+          "Lean stream spec answering every file call."),
+    design_ref="DESIGN.md §6 C18, §11, §12, notes/NOTES-C18.md, notes/NOTES-C18F.md, notes/NOTES-r18.md",
+    note=(TRUST + "; glibc stdio and SQLite (their behaviour is what the models' fread/fwrite/fseek and storage classes say; tested, "
+          "not proved); harness/blocprobe + harness/modprobe + vlib comparators. Assumed: one handle per file, regular files, writes "
+          "< 2^32 bytes; fopen modes with the glibc flag `m` or `,ccs=` are outside the model; SQL fixed to CREATE TABLE t(a) | "
+          "t(a NOT NULL) / INSERT / SELECT shapes; utf8 texts fit 2^64 bytes. Not modelled / not proved: utf8 charmap "
+          "transformations, csv serializers for tuples / numeric tables, stat/dir/errmsg, dirname/basename; the strict RFC decoder is "
+          "related to the encoder by test only. Findings of round 2: C18.utf8_reserve_unchecked, C18.csv_next_null_last_element — "
+          "both repaired in /repo (2b1dab4, ad063b9), the two theorems above still characterise the unrepaired calls; open: utf8 NUL dropped, four sqlite storage-class cells, file update stream "
+          "without reposition."),
+    technique="Lean 4 proof over hand models (round trip, sequence-level refinement of a POSIX specification by induction over call lists, exact hazard-region characterisation, decoder equivalence by strong induction) + exhaustive / randomised differential correspondence on the real classes and the real plugin .so files with independent readers")
+
+CHECKS["C19"] = dict(
+    category="proof",
+    text=("Lean 4 proof about a transcription of apps/main.cpp, main_options.cpp, read_file.cpp and the statement loop of "
+          "cli_parser.cpp (BlocV.Proofs.C19, 59): exit_zero_iff_success, stdout_eq_library_output, arg_table_faithful, stderr_class, "
+          "expr_mode_contract; round 2: getCmd_eq (complete characterisation of option parsing for EVERY argv: options = the if-chain "
+          "folded over the leading option words, program vector = the untouched rest), args_after_program_are_ARG (everything after "
+          "the program word — file, \"\" or `-` — is $ARG verbatim, no option after it is interpreted), out_routing (selected output = "
+          "last --out= among the option words; printed text and returned value there and nowhere else), reader_delivers_every_byte "
+          "(ReadFile::read call by call: the chunks concatenate to the file minus CRs for every file and every buffer size >= 1; "
+          "eager_reader_drops_a_byte: false for the fread-before-capacity-test variant), interactive_eq_batch_scoped_partial "
+          "(declarations anywhere, no redefinition, calls resolve where they stand, last statement may be a top-level return => "
+          "same output / variables / returned value as batch; via Lemmas/CliInterp.lean ext_all), fe_program_contract / "
+          "fe_reader_transparent (the contract with the parser parameter instantiated by the model's own reader + scanner + parser "
+          "+ elaboration); negations at the recorded witnesses. Tie: process runs of the REAL sanitizer-built executable vs the "
+          "in-process library probe vs the model (exit status, stdout bytes, stderr class and position, --out file, interactive "
+          "transcript): random programs, argument vectors with blanks/quotes/UTF-8/leading '-'/empty/3000-byte words, argvenum (409: "
+          "11 option prefixes x program word x 20 tails), longline (physical lines of 1020..1030, 2040..2050, 3069/3070, 20000 "
+          "bytes through file, stdin, CRLF), a reader harness compiled from apps/read_file.cpp of the tree under test (651 cases, "
+          "chunk by chunk, heap buffer of exactly max bytes), front-end-instance pass (432 runs also judged against the text-driven "
+          "model). ~2.6k evaluations."),
+    design_ref="DESIGN.md §6 C19, §11, §12, notes/NOTES-C19.md",
+    note=(TRUST + "; the subprocess plumbing of vlib/props/c19.py. The parser is a parameter of the model except in the fe_* "
+          "theorems, which are conditional on Model/Parse + Elab's verdict (no symbol / type checks there: about 6 texts per run that "
+          "the C++ rejects with a positioned compile error are exempted in that pass and listed in the evidence; the main pass still "
+          "compares them against the probe). Normalised, not modelled: readline echo, Elapsed figure, version line, message texts, "
+          "deferred output of a failing print in -i. Not modelled: interactive commands other than exit (load/run/list…), "
+          "--debug=all trace, colour, a tty. Not proved: chunk-by-chunk equality of the CLI reader with C13's lineReader (same "
+          "concatenation is). Open: returned table/bytes not printed, interactive mode continues after return, interactive "
+          "function redefinition."),
+    technique="Lean 4 proof over a hand model of the decision logic and the reader (structural + fuel induction, mutual induction over the interpreter functions) + process-level three-way differential test, argv enumeration, reader harness")
 
 NOT_YET = {}
 for _k, _c in CHECKS.items():
